@@ -5,6 +5,14 @@ material's stated range.  Monitor: a hook on the real ``Component.setTemperature
 (T before/after, number densities, dimensions, area); an offline checker applies the closed-form laws with
 the expansion factor f = (100+p(T))/(100+p(T0)) taken from the material's own linearExpansionPercent,
 evaluated by the harness (never through the component methods under test).
+
+Which dimensions expand is the generator's statement (all lengths it emits; never the counts mult/nHoles), compared with the
+class attribute THERMAL_EXPANSION_DIMS.  UnshapedComponent (shape = its area) is judged by the area, number-density and path laws.
+A hot value is written to an expanding dimension (reads back; cold = hot / f) and to a count (stored as given).  Linked
+configurations come in Circle, Hexagon and Rectangle families; a link is written through (retainLink=True) or replaced by a plain
+value (retainLink=False: owner untouched, the holder from then on expands that dimension with its own factor).
+
+Not judged here: the values of the materials' expansion correlations themselves (C19).
 """
 import math
 import random
@@ -12,16 +20,38 @@ import random
 PROP = "C03"
 LEVEL = "exploration"
 RULE = (
-    "cross product of every ShapedComponent subclass with is3D False (discovered in ComponentType.TYPES) x every concrete material class in "
+    "cross product of every component class with is3D False discovered in ComponentType.TYPES (the abstract bases, NullComponent and DerivedShape are "
+    "excluded by name with a stated reason; UnshapedComponent, whose 2-D shape is its area, is included) x every concrete material class in "
     "armi.materials (solids judged by the laws, fluids/custom judged for unchanged dimensions) x temperature paths of 1-8 steps inside the "
-    "stated validity range; plus linked-dimension configurations (pairs and chains of 3, in a block and free). distinct = (shape, material, "
-    "path length, link config); non-trivial = the material's expansion differs between two visited temperatures."
+    "stated validity range; the set of thermally expanding dimensions is the generator's own (every dimension it emits except the pure counts "
+    "mult/nHoles and the area of an unshaped component) and is compared with the class attribute; a hot value is set on one expanding and one "
+    "non-expanding dimension; plus linked-dimension configurations for Circle, Hexagon and Rectangle families (pairs and chains of 3, in a block "
+    "and free; writes through the link and writes that replace the link). distinct = (shape, material, path length, link config); "
+    "non-trivial = the material's expansion differs between two visited temperatures."
 )
 TOLERANCES = {"law_rel": 1e-10, "path_rel": 1e-10, "readback_rel": 1e-12}
 EXHAUSTIVE = {"quick": False, "thorough": True}
 EXHAUSTIVE_PART = "thorough: every (2-D shape class x material class) pair at least 3 paths; quick: every pair once"
-FLOORS = {"quick": {"law.area": 400, "law.ndens": 400, "law.dims": 400, "law.path": 400, "law.link": 100, "law.hotset": 200, "law.fluid": 20, "hook:Component.setTemperature": 1000},
-          "thorough": {"law.area": 4000, "law.ndens": 4000, "law.dims": 4000, "law.path": 4000, "law.link": 1000, "law.hotset": 2000, "law.fluid": 200, "hook:Component.setTemperature": 10000}}
+FLOORS = {"quick": {"law.area": 400, "law.ndens": 400, "law.dims": 400, "law.path": 400, "law.link": 100, "law.hotset": 200, "law.fluid": 20, "hook:Component.setTemperature": 1000,
+                    "law.area/unshapedcomponent": 20, "law.expanding-set": 400, "law.hotset-count": 200, "law.link/circle": 100, "law.link/hexagon": 100,
+                    "law.link/rectangle": 100, "law.link-write": 60, "law.link-replace": 60, "law.link-unlinked-follow": 60},
+          "thorough": {"law.area": 4000, "law.ndens": 4000, "law.dims": 4000, "law.path": 4000, "law.link": 1000, "law.hotset": 2000, "law.fluid": 200, "hook:Component.setTemperature": 10000,
+                       "law.area/unshapedcomponent": 200, "law.expanding-set": 4000, "law.hotset-count": 2000, "law.link/circle": 1000, "law.link/hexagon": 1000,
+                       "law.link/rectangle": 1000, "law.link-write": 600, "law.link-replace": 600, "law.link-unlinked-follow": 600}}
+ASSUMPTIONS = [
+    "the linear expansion factor between two temperatures is (100+p(T1))/(100+p(T0)) with p the material's own linearExpansionPercent, evaluated by the harness "
+    "directly on the material object: C03 judges that components apply that factor consistently (area, number densities, dimensions, links); a wrong expansion "
+    "correlation inside a material class is invisible here by design and is the business of C19 (material library)",
+    "which dimensions of a shape expand is stated by the harness generator (all lengths; not the counts mult/nHoles), not read from the class under test",
+]
+# 2-D classes that are deliberately not part of the workload, with the reason (everything else with is3D False is judged or counted as unjudged)
+EXCLUDED_SHAPES = {
+    "component": "abstract base class, no dimensions",
+    "shapedcomponent": "abstract base class, no dimensions",
+    "nullcomponent": "placeholder without material or area",
+    "derivedshape": "area is whatever the parent block leaves free, it has no dimensions of its own to expand",
+}
+COUNT_KEYS = ("mult", "nHoles")  # pure counts: never expand, a hot value is stored as given
 NSHARDS = 12
 
 
@@ -35,7 +65,7 @@ def shapes():
 
     out = []
     for name, cls in sorted(ComponentType.TYPES.items()):
-        if getattr(cls, "is3D", True) or not cls.THERMAL_EXPANSION_DIMS:
+        if getattr(cls, "is3D", True) or name in EXCLUDED_SHAPES:
             continue
         out.append((name, cls))
     return out
@@ -76,7 +106,14 @@ def dims_for(name, rng):
     if name == "holedsquare":
         wo = u(2, 10)
         return {"widthOuter": wo, "holeOD": wo * u(.1, .8), "mult": 1}
+    if name == "unshapedcomponent":
+        return {"area": u(.1, 5)}
     return None
+
+
+def expanding_keys(dims):
+    """The generator's statement of which of the emitted dimensions are lengths that expand linearly."""
+    return sorted(k for k in dims if k not in COUNT_KEYS and k != "area")
 
 
 def material_classes():
@@ -177,9 +214,24 @@ def one_component(rec, rng, sname, scls, mcls, matmod, custom):
     if rng.random() < .3 and npath > 1:
         path[-1] = Thot  # return to start
     w["path"] = path
-    tedims = sorted(scls.THERMAL_EXPANSION_DIMS)
+    # which dimensions expand is the generator's statement, never the class attribute under test; the two are compared
+    tedims = expanding_keys(dims)
+    rec.hit("law.expanding-set")
+    declared = set(scls.THERMAL_EXPANSION_DIMS)
+    missing = sorted(set(tedims) - declared)
+    # a declared key the shape does not have as a dimension (Square inherits Rectangle's length keys) is inert and only noted
+    extra = sorted(k for k in declared - set(tedims) if k in dims or k in scls.DIMENSION_NAMES or k == "area")
+    if missing or extra:
+        rec.violation("dims/expanding-set-differs/%s" % sname, "%s.THERMAL_EXPANSION_DIMS = %s but the lengths of this shape are %s (missing %s, wrongly expanding %s)" % (
+            scls.__name__, sorted(declared), tedims, missing, extra), w)
+    ungenerated = sorted(k for k in scls.DIMENSION_NAMES if k not in dims and k != "modArea")
+    if ungenerated:
+        rec.skip("dimension not generated for shape %s: %s" % (sname, ",".join(ungenerated)))
     try:
         cold = {k: c.getDimension(k, cold=True) for k in tedims}
+        for k in tedims:
+            if cold[k] != dims[k]:
+                rec.violation("dimension/cold-value-is-not-the-input", "%s.%s constructed with %r, cold value reads %r" % (sname, k, dims[k], cold[k]), dict(w, dim=k))
         if fluid:
             d0 = {k: c.getDimension(k) for k in tedims}
             a0 = c.getArea()
@@ -195,6 +247,13 @@ def one_component(rec, rng, sname, scls, mcls, matmod, custom):
         p0 = pct(mat, Thot)
         N0 = dict(c.p.numberDensities)
         A0 = c.getArea()
+        Acold0 = c.getArea(cold=True)
+        # the area at the start is the cold area times the square of the factor input -> hot (for an unshaped component the cold area IS the input)
+        f0 = (100.0 + p0) / (100.0 + p_in)
+        if sname == "unshapedcomponent" and Acold0 != dims["area"]:
+            rec.violation("area/cold-area-is-not-the-input/unshapedcomponent", "constructed with area=%r, cold area reads %r" % (dims["area"], Acold0), w)
+        if not relclose(A0, Acold0 * f0 ** 2, TOLERANCES["law_rel"]):
+            rec.violation("area/not-cold-area-times-square-of-factor/%s" % sname, "%s/%s area at %g C = %r, cold area %r x f^2 %r = %r" % (sname, mname, Thot, A0, Acold0, f0 ** 2, Acold0 * f0 ** 2), w)
         nontrivial = False
         Tprev, pprev = Thot, p0
         for T in path:
@@ -221,20 +280,26 @@ def one_component(rec, rng, sname, scls, mcls, matmod, custom):
             rec.hit("law.dims")
             for k in tedims:
                 got = c.getDimension(k)
+                if not cold[k] and got != cold[k]:
+                    rec.violation("dimension/zero-dimension-moved", "%s.%s is %r cold but reads %r at %g C" % (sname, k, cold[k], got, T), dict(w, dim=k, T=T))
+                    break
                 if cold[k] and not relclose(got, cold[k] * f_in, TOLERANCES["law_rel"]):
                     rec.violation("dimension/not-cold-times-factor/%s" % sname, "%s.%s at %g C = %r, cold %r x f %r = %r" % (sname, k, T, got, cold[k], f_in, cold[k] * f_in), dict(w, dim=k, T=T))
                     break
                 if c.getDimension(k, cold=True) != cold[k]:
                     rec.violation("dimension/cold-value-changed", "cold %s changed %r -> %r" % (k, cold[k], c.getDimension(k, cold=True)), w)
             # non-expanding dims (mult, nHoles) never move
-            for k in ("mult", "nHoles"):
-                if k in dims and c.getDimension(k) != dims[k]:
+            for k in COUNT_KEYS:
+                if k in dims and (c.getDimension(k) != dims[k] or c.getDimension(k, cold=True) != dims[k]):
                     rec.violation("dimension/non-expanding-moved", "%s changed to %r" % (k, c.getDimension(k)), w)
             Tprev, pprev = T, pT
         Tn = path[-1]
         fn = (100.0 + pct(mat, Tn)) / (100.0 + p0)
-        rec.hit("law.area")
         An = c.getArea()
+        rec.hit("law.area")
+        rec.hit("law.area/" + sname)
+        if c.getArea(cold=True) != Acold0:
+            rec.violation("area/cold-area-changed", "%s/%s cold area %r -> %r after the temperature path" % (sname, mname, Acold0, c.getArea(cold=True)), w)
         if not relclose(An, A0 * fn ** 2, TOLERANCES["law_rel"]):
             rec.violation("area/not-square-of-expansion/%s" % sname, "%s/%s area %r -> %r, f^2=%r expected %r" % (sname, mname, A0, An, fn ** 2, A0 * fn ** 2), w)
         for nuc, n0 in N0.items():
@@ -251,19 +316,43 @@ def one_component(rec, rng, sname, scls, mcls, matmod, custom):
                 break
         if not relclose(c.getArea(), c2.getArea(), TOLERANCES["path_rel"]) or any(not relclose(c.getDimension(k), c2.getDimension(k), TOLERANCES["path_rel"]) for k in tedims if cold[k]):
             rec.violation("path-dependence/dimensions", "%s/%s dimensions differ between path and direct" % (sname, mname), w)
+        # setting a hot value on a pure count (mult, nHoles) stores exactly that value: counts do not expand
+        counts = [k for k in COUNT_KEYS if k in dims]
+        if counts:
+            k = rng.choice(counts)
+            others = {j: c.getDimension(j, cold=True) for j in dims if j != k}
+            val = dims[k] + rng.choice([1, 6, 18])
+            c.setDimension(k, val, cold=False)
+            rec.hit("law.hotset-count")
+            if c.getDimension(k) != val or c.getDimension(k, cold=True) != val:
+                rec.violation("setDimension/hot-value-of-a-count-is-scaled", "%s.%s set (cold=False) to %r at %g C (input %g C), reads hot %r cold %r" % (
+                    sname, k, val, Tn, Tin, c.getDimension(k), c.getDimension(k, cold=True)), dict(w, dim=k))
+            if {j: c.getDimension(j, cold=True) for j in others} != others:
+                rec.violation("setDimension/other-dimension-moved", "%s: setting %s changed another dimension" % (sname, k), dict(w, dim=k))
+            c.setDimension(k, dims[k], cold=True)
+            if c.getDimension(k) != dims[k]:
+                rec.violation("setDimension/cold-value-does-not-read-back", "%s.%s cold set %r reads %r" % (sname, k, dims[k], c.getDimension(k)), dict(w, dim=k))
         # setting a hot dimension reads back
-        k = rng.choice(tedims)
-        val = (cold[k] or 0.5) * rng.uniform(.9, 1.1)
-        if sname in ("circle", "helix") and k == "id":
-            val = min(val, c.getDimension("od") * .95)
-        c.setDimension(k, val, cold=False)
-        rec.hit("law.hotset")
-        if not relclose(c.getDimension(k), val, TOLERANCES["readback_rel"]):
-            rec.violation("setDimension/hot-value-does-not-read-back", "%s.%s set hot to %r at %g C, reads %r" % (sname, k, val, Tn, c.getDimension(k)), dict(w, dim=k))
-        val2 = val * 1.01
-        c.setDimension(k, val2, cold=True)
-        if c.getDimension(k, cold=True) != val2:
-            rec.violation("setDimension/cold-value-does-not-read-back", "%s.%s cold set %r reads %r" % (sname, k, val2, c.getDimension(k, cold=True)), w)
+        if tedims:
+            k = rng.choice(tedims)
+            val = (cold[k] or 0.5) * rng.uniform(.9, 1.1)
+            if sname in ("circle", "helix") and k == "id":
+                val = min(val, c.getDimension("od") * .95)
+            others = {j: c.getDimension(j, cold=True) for j in dims if j != k}
+            c.setDimension(k, val, cold=False)
+            rec.hit("law.hotset")
+            if not relclose(c.getDimension(k), val, TOLERANCES["readback_rel"]):
+                rec.violation("setDimension/hot-value-does-not-read-back", "%s.%s set hot to %r at %g C, reads %r" % (sname, k, val, Tn, c.getDimension(k)), dict(w, dim=k))
+            # the stored cold value is the hot value divided by the factor input -> current
+            if not relclose(c.getDimension(k, cold=True) * fn * f0, val, TOLERANCES["law_rel"]):
+                rec.violation("setDimension/hot-value-not-divided-by-factor", "%s.%s set hot to %r at %g C: cold value %r x f %r = %r" % (
+                    sname, k, val, Tn, c.getDimension(k, cold=True), fn * f0, c.getDimension(k, cold=True) * fn * f0), dict(w, dim=k))
+            if {j: c.getDimension(j, cold=True) for j in others} != others:
+                rec.violation("setDimension/other-dimension-moved", "%s: setting %s changed another dimension" % (sname, k), dict(w, dim=k))
+            val2 = val * 1.01
+            c.setDimension(k, val2, cold=True)
+            if c.getDimension(k, cold=True) != val2:
+                rec.violation("setDimension/cold-value-does-not-read-back", "%s.%s cold set %r reads %r" % (sname, k, val2, c.getDimension(k, cold=True)), w)
         rec.case(["solid", sname, mname, npath, Thot == Tin], nontrivial=nontrivial, sample=w if sname == "circle" and mname == "HT9" else None)
     except RuntimeError as e:
         if "Linear expansion percent may not be implemented" in str(e):
@@ -274,47 +363,90 @@ def one_component(rec, rng, sname, scls, mcls, matmod, custom):
         rec.crash("component/%s" % sname, e, w)
 
 
+LINK_FAMILIES = {
+    # family: (class name, [(outer key, inner key) per axis], closed-form area from {key: value} and mult)
+    "circle": ("Circle", [("od", "id")], lambda d, m: math.pi / 4 * (d["od"] ** 2 - d["id"] ** 2) * m),
+    "hexagon": ("Hexagon", [("op", "ip")], lambda d, m: math.sqrt(3.0) / 2 * (d["op"] ** 2 - d["ip"] ** 2) * m),
+    "rectangle": ("Rectangle", [("lengthOuter", "lengthInner"), ("widthOuter", "widthInner")],
+                  lambda d, m: (d["lengthOuter"] * d["widthOuter"] - d["lengthInner"] * d["widthInner"]) * m),
+}
+
+
 def one_link_case(rec, rng, mats, matmod, custom, blocks):
-    """gap.id -> fuel.od ; optional third component; in a block or free."""
+    """gap.<inner key> -> inner.<outer key>, gap.<outer key> -> outer.<inner key>, gap.mult -> inner.mult, for a Circle, Hexagon or
+    Rectangle family; optional third component linked to the gap; in a block or free.  The harness keeps a model of which gap
+    dimensions are still links and, for those replaced by a plain value (setDimension(retainLink=False)), of their cold value."""
     from armi.reactor import components
 
     solids = [m.__name__ for m in mats if m.__name__ in ("HT9", "UZr", "UO2", "B4C", "Zr", "Graphite", "Inconel600", "TZM", "MgO", "HastelloyN", "Cu", "Be9")]
+    family = rng.choice(sorted(LINK_FAMILIES))
+    clsname, axes, area_of = LINK_FAMILIES[family]
+    cls = getattr(components, clsname)
     m1, m3 = rng.choice(solids), rng.choice(solids)
     mgap = rng.choice(["Sodium", "Void", "Custom"] + solids)
     inblock = rng.random() < .6
-    od1 = rng.uniform(.4, 1.0)
     T0 = 25.0
-    w = {"inner": m1, "gap": mgap, "outer": m3, "in_block": inblock}
+    mult0 = rng.choice([1, 7])
+    size = {ok: rng.uniform(.4, 1.0) * (1 if family == "circle" else 10) for ok, _ in axes}  # nominal outer size of the inner component per axis
+    w = {"family": family, "inner": m1, "gap": mgap, "outer": m3, "in_block": inblock, "size": size, "mult": mult0}
     try:
-        fuel = components.Circle("fuel", m1, T0, T0, od=od1, id=0.0, mult=7)
-        clad = components.Circle("clad", m3, T0, T0, od=od1 * 1.4, id=od1 * 1.2, mult=7)
-        gap = components.Circle("gap", mgap, T0, T0, od="clad.id", id="fuel.od", mult="fuel.mult", components={"clad": clad, "fuel": fuel})
+        din, dout, dgap, dliner = {"mult": mult0}, {"mult": mult0}, {"mult": "inner.mult"}, {"mult": mult0}
+        owner_of = {"mult": ("inner", "mult")}  # gap key -> (owner name, owner key)
+        for ok, ik in axes:
+            din[ok], din[ik] = size[ok], rng.choice([0.0, size[ok] * .5])
+            dout[ok], dout[ik] = size[ok] * 1.4, size[ok] * 1.2
+            dgap[ok], dgap[ik] = "outer." + ik, "inner." + ok
+            dliner[ok], dliner[ik] = "gap." + ok, "gap." + ik
+            owner_of[ok], owner_of[ik] = ("outer", ik), ("inner", ok)
+        inner = cls("inner", m1, T0, T0, **din)
+        outer = cls("outer", m3, T0, T0, **dout)
+        gap = cls("gap", mgap, T0, T0, components={"outer": outer, "inner": inner}, **dgap)
+        comp = {"inner": inner, "outer": outer, "gap": gap}
         chain = None
         if rng.random() < .5:
-            chain = components.Circle("liner", rng.choice(solids), T0, T0, od="gap.od", id="gap.id", mult=7, components={"gap": gap})
+            chain = cls("liner", rng.choice(solids), T0, T0, components={"gap": gap}, **dliner)
         if inblock:
-            b = blocks.HexBlock("fuel")
+            b = (blocks.CartesianBlock if family == "rectangle" else blocks.HexBlock)("fuel")
             b.setHeight(10.0)
-            for c_ in (fuel, gap, clad) + ((chain,) if chain else ()):
+            for c_ in (inner, gap, outer) + ((chain,) if chain else ()):
                 b.add(c_)
+        gapfluid = is_fluidlike(gap.material, matmod, custom)
+
+        def f_gap():
+            if gapfluid:
+                return 1.0
+            return (100.0 + pct(gap.material, gap.temperatureInC)) / (100.0 + pct(gap.material, gap.inputTemperatureInC))
+
+        def newval(key, axis_ok):
+            inner_side = owner_of[key][0] == "inner"
+            return size[axis_ok] * (rng.uniform(.9, 1.05) if inner_side else rng.uniform(1.15, 1.25))
+
+        linked = {k: True for k in owner_of}  # model: is gap.<k> still a link
+        plain_cold = {}  # model: cold value of a gap dimension whose link was replaced
+        geokeys = [(k, ok) for ok, ik in axes for k in (ok, ik)]
         seq = []
         for _ in range(rng.randint(1, 6)):
-            who = rng.choice(["fuel", "clad", "gap", "set-fuel-od", "set-clad-id-hot", "set-through-link-hot", "set-through-link-cold"])
+            who = rng.choice(["inner", "outer", "gap", "set-inner-outside-cold", "set-outer-inside-hot", "set-through-link-hot", "set-through-link-cold",
+                              "replace-link-hot", "replace-link-cold", "replace-link-mult"])
             T = rng.uniform(20, 580)
             seq.append((who, T))
-            if who == "fuel":
-                fuel.setTemperature(T)
-            elif who == "clad":
-                clad.setTemperature(T)
-            elif who == "gap":
-                gap.setTemperature(T)
-            elif who == "set-fuel-od":
-                fuel.setDimension("od", od1 * rng.uniform(.9, 1.05))
+            if who in ("inner", "outer", "gap"):
+                comp[who].setTemperature(T)
+            elif who == "set-inner-outside-cold":
+                ok, _ik = rng.choice(axes)
+                inner.setDimension(ok, size[ok] * rng.uniform(.9, 1.05))
+            elif who == "set-outer-inside-hot":
+                ok, ik = rng.choice(axes)
+                outer.setDimension(ik, size[ok] * rng.uniform(1.15, 1.25), cold=False)
             elif who in ("set-through-link-hot", "set-through-link-cold"):
-                # write a linked dimension of the gap with retainLink: the value lands on the owner (fuel.od / clad.id), which
+                # write a linked dimension of the gap with retainLink: the value lands on the owner (inner.od / outer.id ...), which
                 # converts a hot value with ITS OWN expansion factor; the hot value must read back on both sides
-                key, owner, okey = rng.choice([("id", fuel, "od"), ("od", clad, "id")])
-                val = od1 * (rng.uniform(.9, 1.05) if key == "id" else rng.uniform(1.15, 1.25))
+                key, axis_ok = rng.choice(geokeys)
+                seq[-1] = (who, T, key)
+                if not linked[key]:
+                    continue  # that link was replaced earlier in this history; a plain write is judged by the replace-link steps
+                owner, okey = comp[owner_of[key][0]], owner_of[key][1]
+                val = newval(key, axis_ok)
                 hotset = who.endswith("hot")
                 gap.setDimension(key, val, retainLink=True, cold=not hotset)
                 rec.hit("law.link-write")
@@ -322,31 +454,75 @@ def one_link_case(rec, rng, mats, matmod, custom, blocks):
                 if not relclose(got_owner, val, TOLERANCES["readback_rel"]) or not relclose(got_gap, val, TOLERANCES["readback_rel"]):
                     rec.violation("link/write-through-link-does-not-read-back/%s" % ("hot" if hotset else "cold"),
                                   "gap.setDimension(%s, %r, retainLink=True, cold=%s): gap reads %r, owner %s.%s reads %r" % (key, val, not hotset, got_gap, owner.name, okey, got_owner), dict(w, seq=seq))
+                if not gap.dimensionIsLinked(key):
+                    rec.violation("link/write-with-retainLink-dropped-the-link", "gap.%s is no longer a link after setDimension(retainLink=True)" % key, dict(w, seq=seq))
                 if hotset:
                     p_in, p_now = pct(owner.material, owner.inputTemperatureInC), pct(owner.material, owner.temperatureInC)
                     f_owner = (100.0 + p_now) / (100.0 + p_in)
                     if not relclose(owner.getDimension(okey, cold=True) * f_owner, val, TOLERANCES["law_rel"]):
                         rec.violation("link/write-through-link-cold-value-not-owner-factor", "owner cold %s.%s = %r, hot %r / owner factor %r = %r" % (owner.name, okey, owner.getDimension(okey, cold=True), val, f_owner, val / f_owner), dict(w, seq=seq))
             else:
-                clad.setDimension("id", od1 * rng.uniform(1.15, 1.25), cold=False)
+                # setDimension(retainLink=False) on a linked dimension: the link is replaced by the plain value (a hot value is converted with
+                # the GAP's own factor; a count is stored as given), the former owner keeps its dimension, and the gap stops following it
+                if who == "replace-link-mult":
+                    key, val, hotset = "mult", mult0 + rng.choice([1, 5, 12]), rng.random() < .5
+                else:
+                    key, axis_ok = rng.choice(geokeys)
+                    val, hotset = newval(key, axis_ok), who.endswith("hot")
+                seq[-1] = (who, T, key)
+                owner, okey = comp[owner_of[key][0]], owner_of[key][1]
+                owner_before = (owner.getDimension(okey, cold=True), owner.getDimension(okey), owner.dimensionIsLinked(okey))
+                was_linked = linked[key]
+                gap.setDimension(key, val, retainLink=False, cold=not hotset)
+                linked[key] = False
+                rec.hit("law.link-replace" if was_linked else "law.link-plain-rewrite")
+                fg = 1.0 if key == "mult" else f_gap()
+                if gap.dimensionIsLinked(key):
+                    rec.violation("link/replace-link-kept-the-link", "gap.%s is still a link after setDimension(%r, retainLink=False)" % (key, val), dict(w, seq=seq))
+                got = gap.getDimension(key, cold=not hotset)
+                if (key == "mult" and got != val) or not relclose(got, val, TOLERANCES["readback_rel"]):
+                    rec.violation("link/replace-link-does-not-read-back/%s" % ("count" if key == "mult" else "hot" if hotset else "cold"),
+                                  "gap.setDimension(%s, %r, retainLink=False, cold=%s) reads back %r" % (key, val, not hotset, got), dict(w, seq=seq))
+                gcold = gap.getDimension(key, cold=True)
+                if hotset and not relclose(gcold * fg, val, TOLERANCES["law_rel"]):
+                    rec.violation("link/replace-link-hot-value-not-divided-by-own-factor", "gap.%s set hot to %r: cold value %r x gap factor %r = %r" % (key, val, gcold, fg, gcold * fg), dict(w, seq=seq))
+                plain_cold[key] = gcold
+                owner_after = (owner.getDimension(okey, cold=True), owner.getDimension(okey), owner.dimensionIsLinked(okey))
+                if owner_after != owner_before:
+                    rec.violation("link/replace-link-changed-the-owner", "gap.setDimension(%s, %r, retainLink=False) changed %s.%s: (cold, hot, linked) %r -> %r" % (
+                        key, val, owner.name, okey, owner_before, owner_after), dict(w, seq=seq))
             rec.hit("law.link")
-            pairs = [("gap.id", gap.getDimension("id"), "fuel.od", fuel.getDimension("od")),
-                     ("gap.od", gap.getDimension("od"), "clad.id", clad.getDimension("id")),
-                     ("gap.mult", gap.getDimension("mult"), "fuel.mult", fuel.getDimension("mult")),
-                     ("gap.id(cold)", gap.getDimension("id", cold=True), "fuel.od(cold)", fuel.getDimension("od", cold=True))]
-            if chain:
-                pairs += [("liner.od", chain.getDimension("od"), "clad.id", clad.getDimension("id")), ("liner.id", chain.getDimension("id"), "fuel.od", fuel.getDimension("od"))]
-            for ln, lv, tn, tv in pairs:
-                if lv != tv:
-                    rec.violation("link/linked-dimension-differs-from-target", "after %s: %s=%r but %s=%r" % (seq, ln, lv, tn, tv), dict(w, seq=seq))
+            rec.hit("law.link/" + family)
+            bad = None
+            for key, (oname, okey) in sorted(owner_of.items()):
+                owner = comp[oname]
+                gh, gc = gap.getDimension(key), gap.getDimension(key, cold=True)
+                if linked[key]:
+                    # a linked dimension always equals the owner's current dimension
+                    if gh != owner.getDimension(okey) or gc != owner.getDimension(okey, cold=True):
+                        bad = ("link/linked-dimension-differs-from-target", "gap.%s=%r (cold %r) but %s.%s=%r (cold %r)" % (key, gh, gc, oname, okey, owner.getDimension(okey), owner.getDimension(okey, cold=True)))
+                else:
+                    # a replaced link is an ordinary dimension of the gap: cold value as stored, hot = cold x the gap's own factor
+                    rec.hit("law.link-unlinked-follow")
+                    fg = 1.0 if key == "mult" else f_gap()
+                    if gc != plain_cold[key] or not relclose(gh, plain_cold[key] * fg, TOLERANCES["law_rel"]):
+                        bad = ("link/replaced-link-not-an-own-dimension", "gap.%s (link replaced by %r cold) reads cold %r hot %r, own factor %r; %s.%s=%r" % (
+                            key, plain_cold[key], gc, gh, fg, oname, okey, owner.getDimension(okey)))
+                if chain and key != "mult" and (chain.getDimension(key) != gh or chain.getDimension(key, cold=True) != gc):
+                    bad = ("link/linked-dimension-differs-from-target", "liner.%s=%r but gap.%s=%r" % (key, chain.getDimension(key), key, gh))
+                if bad:
+                    rec.violation(bad[0], "after %s: %s" % (seq, bad[1]), dict(w, seq=seq))
                     break
-            # the linked component's area follows (no stale cache) : pi/4 (od^2-id^2) mult
-            exp_area = math.pi / 4 * (gap.getDimension("od") ** 2 - gap.getDimension("id") ** 2) * gap.getDimension("mult")
+            # the linked component's area follows (no stale cache): closed form of the family from the gap's current dimensions
+            now = {k: gap.getDimension(k) for k, _ in geokeys}
+            exp_area = area_of(now, gap.getDimension("mult"))
             if not relclose(gap.getArea(), exp_area, 1e-12):
                 rec.violation("link/stale-area", "gap area %r, from its current dimensions %r" % (gap.getArea(), exp_area), dict(w, seq=seq))
             if inblock and not relclose(gap.getVolume(), exp_area * b.getHeight(), 1e-12):
                 rec.violation("link/stale-volume", "gap volume %r, from its current dimensions %r" % (gap.getVolume(), exp_area * b.getHeight()), dict(w, seq=seq))
-        rec.case(["link", m1, mgap, m3, inblock, bool(chain), [s for s, _ in seq]], sample=dict(w, seq=seq) if rng.random() < .02 else None)
+            if chain and not relclose(chain.getArea(), area_of(now, mult0), 1e-12):
+                rec.violation("link/stale-area", "liner area %r, from the gap's current dimensions %r" % (chain.getArea(), area_of(now, mult0)), dict(w, seq=seq))
+        rec.case(["link", family, m1, mgap, m3, inblock, bool(chain), [s[0] for s in seq]], sample=dict(w, seq=seq) if rng.random() < .02 else None)
     except RuntimeError as e:
         if "Linear expansion percent may not be implemented" in str(e):
             rec.reject("no_expansion_law(link)")
